@@ -1,0 +1,170 @@
+//! Verification hooks (feature `verif_hooks`): read-only views of internal bookkeeping and a thread-local
+//! event sink for the system command runner. Nothing in here is used when the feature is off.
+
+use crate::react::*;
+
+use bevy::prelude::*;
+
+use std::any::TypeId;
+use std::cell::RefCell;
+
+//-------------------------------------------------------------------------------------------------------------------
+
+/// Events emitted by `syscommand_runner`.
+#[derive(Debug, Copy, Clone, Eq, PartialEq)]
+pub enum RunnerEvent
+{
+    /// The runner was entered for a command targeting the entity.
+    Applied,
+    /// Aborted because the target entity does not exist.
+    AbortNoEntity,
+    /// Aborted because the target has no system command storage.
+    AbortNoStorage,
+    /// Aborted because the callback is missing at the root of a tree.
+    AbortMissingAtRoot,
+    /// Postponed because the callback is missing (the system is running).
+    Postponed,
+    /// The callback is about to run (setup has run).
+    Enter,
+    /// The callback returned.
+    Exit,
+    /// The callback was reinserted.
+    Reinserted,
+    /// The callback was dropped because its entity is gone (or lost its storage).
+    Dropped,
+    /// A buffered command is being replayed.
+    Replay,
+    /// A buffered command was discarded at the root.
+    Discard,
+    /// The runner is returning.
+    Return,
+}
+
+thread_local!
+{
+    static SINK: RefCell<Option<Box<dyn FnMut(RunnerEvent, Entity)>>> = RefCell::new(None);
+}
+
+/// Installs (or removes) the thread-local runner event sink.
+pub fn set_sink(sink: Option<Box<dyn FnMut(RunnerEvent, Entity)>>)
+{
+    SINK.with(|s| *s.borrow_mut() = sink);
+}
+
+pub(crate) fn emit(event: RunnerEvent, entity: Entity)
+{
+    SINK.with(|s| {
+        // Take the sink out while calling it so a re-entrant emit cannot double-borrow.
+        let taken = s.borrow_mut().take();
+        if let Some(mut f) = taken {
+            (f)(event, entity);
+            let mut slot = s.borrow_mut();
+            if slot.is_none() { *slot = Some(f); }
+        }
+    });
+}
+
+//-------------------------------------------------------------------------------------------------------------------
+
+/// Key of a registration table.
+#[derive(Debug, Copy, Clone, Eq, PartialEq)]
+pub enum TableKey
+{
+    Insertion(TypeId),
+    Mutation(TypeId),
+    Removal(TypeId),
+    AnyEntityEvent(TypeId),
+    Resource(TypeId),
+    Broadcast(TypeId),
+    Despawn(Entity),
+    EntityInsertion(Entity, TypeId),
+    EntityMutation(Entity, TypeId),
+    EntityRemoval(Entity, TypeId),
+    EntityEvent(Entity, TypeId),
+}
+
+/// One registration: reactor entity and, for ref-counted handles, the current strong count of its signal.
+#[derive(Debug, Copy, Clone, Eq, PartialEq)]
+pub struct Registration
+{
+    pub reactor: Entity,
+    pub strong_count: Option<usize>,
+}
+
+pub(crate) fn registration(handle: &ReactorHandle) -> Registration
+{
+    match handle
+    {
+        ReactorHandle::Persistent(sys) => Registration{ reactor: **sys, strong_count: None },
+        ReactorHandle::AutoDespawn(signal) => Registration{ reactor: signal.entity(), strong_count: Some(signal.verif_strong_count()) },
+    }
+}
+
+/// Internal bookkeeping of the react framework.
+#[derive(Debug, Clone, Default)]
+pub struct Snapshot
+{
+    pub counter: usize,
+    pub buffered: usize,
+    /// `(currently_reacting, prepared.len())` for the system-event, event, entity-reaction, despawn trackers.
+    pub trackers: [(bool, usize); 4],
+    pub despawn_handle_held: bool,
+    /// Entities whose system command callback is currently taken.
+    pub taken: Vec<Entity>,
+    /// Type-wide and despawn registration tables (in table order), then per-entity tables (in entity order).
+    pub tables: Vec<(TableKey, Vec<Registration>)>,
+    /// Component types with removal tracking, in checker order.
+    pub tracked_removals: Vec<TypeId>,
+}
+
+/// Takes a snapshot of the framework's internal bookkeeping.
+pub fn snapshot(world: &mut World) -> Snapshot
+{
+    let mut snap = Snapshot::default();
+    snap.counter = **world.resource::<SyscommandCounter>();
+    snap.buffered = world.resource::<CobwebCommandQueue<BufferedSyscommand>>().verif_len();
+    let (r, n) = world.resource::<SystemEventAccessTracker>().verif_state();
+    snap.trackers[0] = (r, n);
+    let (r, n) = world.resource::<EventAccessTracker>().verif_state();
+    snap.trackers[1] = (r, n);
+    let (r, n) = world.resource::<EntityReactionAccessTracker>().verif_state();
+    snap.trackers[2] = (r, n);
+    let (r, n, h) = world.resource::<DespawnAccessTracker>().verif_state();
+    snap.trackers[3] = (r, n);
+    snap.despawn_handle_held = h;
+
+    let mut q = world.query::<(Entity, &SystemCommandStorage)>();
+    for (e, storage) in q.iter(world)
+    {
+        if storage.verif_is_taken() { snap.taken.push(e); }
+    }
+
+    snap.tables = world.resource::<ReactCache>().verif_tables();
+    snap.tracked_removals = world.resource::<ReactCache>().verif_tracked_removals();
+
+    let mut q = world.query::<(Entity, &EntityReactors)>();
+    for (e, reactors) in q.iter(world)
+    {
+        for (rtype, handle) in reactors.verif_iter()
+        {
+            let key = match *rtype
+            {
+                EntityReactionType::Insertion(id) => TableKey::EntityInsertion(e, id),
+                EntityReactionType::Mutation(id)  => TableKey::EntityMutation(e, id),
+                EntityReactionType::Removal(id)   => TableKey::EntityRemoval(e, id),
+                EntityReactionType::Event(id)     => TableKey::EntityEvent(e, id),
+            };
+            snap.tables.push((key, vec![registration(handle)]));
+        }
+    }
+
+    snap
+}
+
+/// Returns `true` if the entity carries `EntityWorldLocal<T>`.
+pub fn has_entity_world_local<T: EntityWorldReactor>(world: &World, entity: Entity) -> bool
+{
+    world.get::<EntityWorldLocal<T>>(entity).is_some()
+}
+
+//-------------------------------------------------------------------------------------------------------------------
